@@ -314,6 +314,7 @@ def scen_c12(ops, reentrant, ctor_timeouts, t_arg, poll, overshoot, fault_call=-
         if devs:
             break
     # -- final probes (only when the sequence ran through): every party can acquire iff the model says free
+    K.faults.clear()    # faults belong to the sequence, not to the probes
     if not devs and not blocked:
         for i in range(nobj):
             for t in (0, 1):
@@ -527,14 +528,18 @@ def cells(prop, tier):
     out = []
     q = 'quick'
     if prop == 'C02':
-        for re in (False, True):
-            for tmo in (-1, 0, 2):
+        combos = [(False, -1, 1), (False, -1, 2), (False, 0, 1), (False, 0, 2), (False, 2, 1), (False, 2, 2), (True, -1, 1), (True, 0, 1)]
+        for (re, tmo, nobj) in combos:
+            for s0 in range(5):
+                isq = not (tmo == 2 and s0 in (2, 3)) and not (re and s0 in (2, 4))
                 out.append(Cell(
-                    name='c02_2t_re%d_tmo%s' % (re, str(tmo).replace('-', 'm')),
-                    sig='styles: List[int], nobj: int, csdur: int, prio_idx: int, p1: int, q1: int',
-                    pre=['len(styles) == 2 and all(0 <= s <= 4 for s in styles) and 1 <= nobj <= 2 and 0 <= csdur <= 2',
-                         '0 <= prio_idx <= 1 and 0 <= p1 <= 70 and q1 == 0'],
-                    body='H.scen_c02(styles, %d, %r, nobj, csdur, prio_idx, p1, q1)' % (tmo, re), tier=q, timeout=600, family='c02', weight=3))
+                    name='c02_2t_re%d_tmo%s_obj%d_%s' % (re, str(tmo).replace('-', 'm'), nobj, STYLES[s0]),
+                    sig='s1: int, prio_idx: int, p1: int',
+                    pre=['0 <= s1 <= 4 and 0 <= prio_idx <= 1 and 0 <= p1 <= 90'],
+                    body='H.scen_c02([%d, s1], %d, %r, %d, 1, prio_idx, p1, 0)' % (s0, tmo, re, nobj),
+                    tier=q if isq else 'thorough', timeout=600, family='c02', weight=3))
+        if tier != 'thorough':
+            out = [c for c in out if c.tier == 'quick']
         out.append(Cell(name='twin_c02', sig='styles: List[int], p1: int', pre=['len(styles) == 2 and all(0 <= s <= 1 for s in styles) and 0 <= p1 <= 40'],
                         body='H.twin_c02(styles, p1)', expect='refute', timeout=200, family='c02'))
         if tier == 'thorough':
@@ -561,32 +566,53 @@ def cells(prop, tier):
         sig = 'tt: List[int], oo: List[int], kk: List[int], t_arg: int, poll: int, overshoot: int'
         nk = len(OPS)
 
-        def seqcell(n, re, tmos, tier_, tmo, first=None, fault=False):
+        def seqcell(n, re, tmos, tier_, tmo, first=None, fault=False, fix=None):
             pre = ['len(tt) == %d and len(oo) == %d and len(kk) == %d' % (n, n, n),
                    'all(0 <= t <= 1 for t in tt) and all(0 <= o <= 1 for o in oo) and all(0 <= k <= %d for k in kk)' % (nk - 1),
-                   '0 <= t_arg <= 3 and 1 <= poll <= 2 and 0 <= overshoot <= 1']
-            name = 'c12_seq%d_re%d%d_tmo%s%s' % (n, re[0], re[1], '_'.join(str(x).replace('-', 'm') for x in tmos), '_k%d' % first if first is not None else '')
+                   't_arg == 1 and poll == 1 and overshoot == 0']
+            name = 'c12_seq%d_re%d%d_tmo%s%s%s' % (n, re[0], re[1], '_'.join(str(x).replace('-', 'm') for x in tmos),
+                                                 '_k%d' % first if first is not None else '', '_' + fix if fix else '')
+            if fix == 'oo':
+                pre.append('all(o == 0 for o in oo)')
+            if fix == 'tt':
+                pre.append('all(t == 0 for t in tt)')
             if first is not None:
                 pre.append('kk[0] == %d' % first)
             body = 'H.scen_c12_seq(tt, oo, kk, %r, %r, t_arg, poll, overshoot' % (list(re), list(tmos))
             s = sig
             if fault:
                 s += ', fault_call: int, fault_idx: int'
-                pre.append('0 <= fault_call <= 3 and 0 <= fault_idx <= 2')
+                pre.append('0 <= fault_call <= 3 and 0 <= fault_idx <= 1')
                 body += ', fault_call, fault_idx'
                 name += '_fault'
             return Cell(name=name, sig=s, pre=pre, body=body + ')', tier=tier_, timeout=tmo, family='c12', weight=3)
         for re in ((0, 0), (1, 1), (1, 0)):
-            out.append(seqcell(2, re, (0, 1), q, 400))
+            for lo, hi in ((0, 2), (3, 5), (6, 8)):
+                c = seqcell(2, re, (0, 1), q, 900)
+                c.name += '_k%d_%d' % (lo, hi)
+                c.pre.append('%d <= kk[0] <= %d' % (lo, hi))
+                out.append(c)
+            out.append(seqcell(2, re, (-1, 2), 'thorough', 1500))
         for re in ((0, 0), (1, 1)):
-            for first in (0, 1, 3, 5):   # sequences of 3 starting with an acquisition
-                out.append(seqcell(3, re, (0, 0), q, 600, first=first))
-        out.append(seqcell(2, (1, 0), (0, 0), q, 600, fault=True))
+            for first in range(nk):
+                isq = first in (0, 2, 3, 5)
+                out.append(seqcell(3, re, (0, 0), q if isq else 'thorough', 900, first=first, fix='oo'))   # one object, both threads
+                isq = first == 2 and re == (0, 0)
+                out.append(seqcell(3, re, (0, 0), q if isq else 'thorough', 900, first=first, fix='tt'))   # one thread, both objects
+        c = seqcell(2, (1, 0), (0, 0), q, 900, first=2, fault=True, fix='tt')
+        out.append(c)
+        out.append(seqcell(2, (1, 0), (0, 0), 'thorough', 3000, fault=True))
+        out.append(seqcell(2, (0, 1), (0, 0), 'thorough', 3000, fault=True, fix='oo'))
+        if tier != 'thorough':
+            out = [c for c in out if c.tier == 'quick']
+        out.append(Cell(name='c12_timing', sig=sig, pre=['len(tt) == 2 and len(oo) == 2 and len(kk) == 2 and tt[0] == 0 and oo[0] == 0 and kk[0] == 2',
+                                                          '0 <= tt[1] <= 1 and 0 <= oo[1] <= 1 and 0 <= kk[1] <= 5 and 0 <= t_arg <= 4 and 1 <= poll <= 3 and 0 <= overshoot <= 1'],
+                        body='H.scen_c12_seq(tt, oo, kk, [False, False], [-1, 3], t_arg, poll, overshoot)', tier=q, timeout=400, family='c12', weight=2))
         out.append(Cell(name='c12_blocking', sig='style: int, reentrant: bool, hold: int, prio_idx: int, p1: int',
                         pre=['0 <= style <= 1 and 1 <= hold <= 3 and 0 <= prio_idx <= 1 and 0 <= p1 <= 60'],
                         body='H.scen_c12_blocking(style, reentrant, hold, prio_idx, p1)', tier=q, timeout=400, family='c12', weight=2))
         out.append(Cell(name='twin_c12', sig='tt: List[int], oo: List[int], kk: List[int]',
-                        pre=['len(tt) == 4 and len(oo) == 4 and len(kk) == 4 and all(t == 0 for t in tt) and all(o == 0 for o in oo) and all(0 <= k <= 8 for k in kk)'],
+                        pre=['len(tt) == 4 and len(oo) == 4 and len(kk) == 4 and all(t == 0 for t in tt) and all(o == 0 for o in oo) and kk[0] == 2 and kk[1] == 2 and all(0 <= k <= 8 for k in kk)'],
                         body='H.twin_c12(tt, oo, kk)', expect='refute', timeout=300, family='c12'))
         if tier == 'thorough':
             for re in ((0, 0), (1, 1), (1, 0)):
